@@ -342,6 +342,16 @@ def run(ck):
     for i in range(40 if not ck.thorough() else 800):
         if ck.mine(i + 2):
             crossing_with_queued_notices(ck, [tab, exp], base + 888, i)
+    # the same families with EDGE-SHAPED IKE and CHILD SPIs (leading / trailing 0x00 / 0xff, a zero inside, top bits set): routing and the table do not depend on them
+    def special():
+        for hi in range(8 if not ck.thorough() else 80):
+            if ck.mine(hi + 1):
+                status_at_every_step(ck, mons, base + 15313 * (hi + 1), hi)
+        for i in range(10 if not ck.thorough() else 200):
+            if ck.mine(i + 3):
+                ends_with_children(ck, [tab], base + 15777 + i, i)
+                crossing_with_queued_notices(ck, [tab, exp], base + 15888, i)
+    S.special_pass(ck, 15160, special)
     # (a) duplication patterns of rekey / delete exchanges
     lists = [[('A', 'rekey_ike')], [('B', 'rekey_ike')], [('A', 'delete_ike')], [('B', 'delete_ike')],
              [('A', 'rekey_ike'), ('B', 'rekey_ike')], [('A', 'rekey_ike'), ('B', 'delete_ike')],
@@ -827,6 +837,7 @@ def run(ck):
 
 
 def verdict(ck):
+    ck.floor('(octet count, shape) classes of edge-shaped urandom() results (leading / trailing 0x00 / 0xff, top bit, zero inside) handed to the daemons in the special-values pass', len(ck.sets['special_values.shapes']), 12)
     ck.floor('EXPIRE notices queued while a request was in flight and the peer\'s own request crossed it', ck.counters['crossing_queued.notices_queued'], 25)
     ck.floor('requests to a multi-homed gateway between a pair of addresses that has no connection', ck.counters['busy_gateway.pair_without_a_connection'] + ck.counters['busy_gateway.not_answered'], 6)
     ck.floor('ownership of the kernel SAs checked after an unacceptable answer to the daemon\'s IKE_SA rekey', ck.counters['bad_rekey_answer.ownership_checked'], 10)
